@@ -133,6 +133,35 @@ fn rich_alphabet(runs: bool, despawn_ents: bool, remove: bool, probe: Option<Act
     })
 }
 
+/// Trigger entity 0 is auto-despawned (the harness holds its only signal) and carries entity-scoped triggers of
+/// ref-counted reactors; one of them also watches the other reactor's trigger entity.
+fn chain_cfg(name: String, n: u32, watchers: bool) -> Config
+{
+    let mut c = Config::base(&name);
+    c.actors = vec![Variant::Plain];
+    c.n_ents = 2;
+    c.children = vec![(1, 0)];
+    c.auto_ents = vec![0];
+    c.setup = vec![
+        Op::RegisterNew(Variant::Plain, Bundle::one(Trig::EntityEvent(Ev::A, 0)), Mode::Cleanup),
+        Op::RegisterNew(Variant::Plain, Bundle::two(Trig::EntityEvent(Ev::A, 1), Trig::Broadcast(Ev::B)), Mode::Revokable),
+    ];
+    if watchers { c.setup.push(Op::Register(0, Bundle::two(Trig::Despawn(0), Trig::Despawn(1)), Mode::Persistent)); }
+    let alpha: AlphabetFn = Arc::new(|i: &DynInfo| {
+        let mut v = vec![Op::DropSignal(0), Op::EntityEvent(Ev::A, 0), Op::EntityEvent(Ev::A, 1), Op::Broadcast(Ev::B), Op::Run(0), Op::Gc];
+        for k in i.ready_tokens() { v.push(Op::Revoke(k)); }
+        v
+    });
+    c.top = alpha.clone();
+    c.script = alpha;
+    c.max_top = 3;
+    c.budget = n;
+    c.max_per_run = 2;
+    c.max_runs = 200;
+    c.final_gc = true;
+    c
+}
+
 //-------------------------------------------------------------------------------------------------------------------
 
 fn item(cfg: Config, series: &str, bound: &str) -> PlanItem
@@ -283,6 +312,13 @@ pub fn plan(property: &str, tier: Tier) -> Option<Plan>
                 c.sym_ents = vec![];
                 items.push(item(c, "rich2", &format!("N={n}")));
             }
+            // chained auto-despawn: a trigger entity is itself auto-despawned and owns the last handle of reactors
+            let ns: &[u32] = if q { &[4] } else { &[4, 5] };
+            for &n in ns
+            {
+                items.push(item(chain_cfg(format!("C11/chain/N{n}"), n, false), "chain", &format!("N={n}")));
+                items.push(item(chain_cfg(format!("C11/chain-watched/N{n}"), n, true), "chain-watched", &format!("N={n}")));
+            }
             reports = vec!["C11"];
             rule = "every quiescent point of runner-core and kind-rich programs (aborted, postponed, discarded and \
                 self-despawning commands; several trees per world): framework bookkeeping snapshot must be clean".into();
@@ -303,6 +339,29 @@ pub fn plan(property: &str, tier: Tier) -> Option<Plan>
                 c.budget = n;
                 c.max_runs = 600;
                 items.push(item(c, "rich", &format!("N={n}")));
+            }
+            if is3
+            {
+                // events pending before a tree starts (removals / despawns not yet polled when the next command arrives)
+                let ns: &[u32] = if q { &[3] } else { &[3, 4] };
+                for &n in ns
+                {
+                    let mut c = Config::base(&format!("C03/tops/N{n}"));
+                    c.actors = vec![Variant::Plain, Variant::Plain];
+                    c.n_ents = 2;
+                    c.setup = {
+                        let mut s = vec![Op::Insert(Comp::A, 0, 0), Op::Insert(Comp::A, 1, 0)];
+                        s.extend(rich_setup(&[0, 1], &[0, 1], true, true));
+                        s.push(Op::Register(0, Bundle::two(Trig::Despawn(0), Trig::Despawn(1)), Mode::Persistent));
+                        s
+                    };
+                    c.top = rich_alphabet(true, true, true, None);
+                    c.script = rich_alphabet(true, false, true, None);
+                    c.max_top = 3;
+                    c.budget = n;
+                    c.max_runs = 600;
+                    items.push(item(c, "tops", &format!("N={n}")));
+                }
             }
             if !is3
             {
@@ -379,7 +438,7 @@ pub fn plan(property: &str, tier: Tier) -> Option<Plan>
             for (gname, trigs, fires) in groups
             {
                 // (a)/(b): top-level histories
-                let ds: &[u32] = if q { &[3] } else { &[3, 4, 5] };
+                let ds: &[u32] = if q { &[4] } else { &[4, 5] };
                 for &d in ds
                 {
                     let mut c = Config::base(&format!("{property}/hist/{gname}/D{d}"));
@@ -569,6 +628,15 @@ pub fn plan(property: &str, tier: Tier) -> Option<Plan>
                 c.max_runs = 200;
                 items.push(item(c, "life-comp", &format!("D={d}")));
             }
+            if is7
+            {
+                let ns: &[u32] = if q { &[4] } else { &[4, 5] };
+                for &n in ns
+                {
+                    items.push(item(chain_cfg(format!("C07/chain/N{n}"), n, false), "chain", &format!("N={n}")));
+                    items.push(item(chain_cfg(format!("C07/chain-watched/N{n}"), n, true), "chain-watched", &format!("N={n}")));
+                }
+            }
             reports = vec![if is7 { "C07" } else { "C15" }];
             rule = if is7 {
                 "histories of registering new reactors (every mode x bundles incl. empty, despawn triggers, entity \
@@ -619,6 +687,34 @@ pub fn plan(property: &str, tier: Tier) -> Option<Plan>
                     c.max_runs = 200;
                     items.push(item(c, if update { "frames" } else { "flush" }, &format!("D={d}")));
                 }
+            }
+            // no type-wide reactor for the component at all: only entity-scoped removal reactors
+            let ds: &[u32] = if q { &[4] } else { &[4, 5, 6] };
+            for &d in ds
+            {
+                let mut c = Config::base(&format!("C08/entity-only/D{d}"));
+                c.actors = vec![Variant::Plain, Variant::Plain];
+                c.n_ents = 2;
+                c.setup = vec![
+                    Op::Insert(Comp::A, 0, 0), Op::Insert(Comp::A, 1, 0),
+                    Op::Register(0, Bundle::two(Trig::EntityRemoval(Comp::A, 0), Trig::EntityRemoval(Comp::A, 1)), Mode::Persistent),
+                    Op::Register(1, Bundle::one(Trig::EntityRemoval(Comp::A, 1)), Mode::Persistent),
+                ];
+                let alpha: AlphabetFn = Arc::new(move |_i: &DynInfo| {
+                    vec![
+                        Op::Insert(Comp::A, 0, 1), Op::Insert(Comp::A, 1, 1),
+                        Op::RemoveComp(Comp::A, 0), Op::RemoveComp(Comp::A, 1),
+                        Op::Despawn(1), Op::Poll, Op::Run(0),
+                    ]
+                });
+                c.top = alpha.clone();
+                c.script = alpha;
+                c.max_top = d;
+                c.budget = d;
+                c.max_per_run = 2;
+                c.final_gc = true;
+                c.max_runs = 200;
+                items.push(item(c, "entity-only", &format!("D={d}")));
             }
             reports = vec!["C08"];
             rule = "histories of insert / remove / re-insert / despawn / recursive despawn of a parent (entity 1 is a child \
